@@ -5,6 +5,7 @@ package main
 // the library contract files under /verif/contracts/lib.
 
 import (
+	"go/types"
 	"fmt"
 	"os"
 	"regexp"
@@ -37,12 +38,14 @@ type FuncContract struct {
 	RNames     []string
 	AtCalls    []AtCall
 	Preserves  []*Clause
+	RepInvs    []*Clause // see "repinv"
 	ModAll     bool              // modifies *
 	Loops      map[int][]*Clause // loop ordinal -> invariants
 	LoopMods   map[int][]string  // loop ordinal -> extra havoc hints (unused mostly)
 	Flags      map[string]string // inline, trusted, pure, nopanic, recovers, ...
 	File       string
 	Line       int
+	fnRecvT    types.Type // receiver type of a library / interface method contract
 }
 
 // GhostDecl is a ghost function or lemma function given as Go source.
@@ -163,15 +166,20 @@ func parseContractFile(path string, pkgPath string, pc *PkgContracts) error {
 			}
 			pc.Funcs[key] = cur
 			counts = map[string]int{}
-		case "requires", "ensures":
+		case "requires", "ensures", "repinv":
 			if cur == nil {
 				return fmt.Errorf("%s:%d: clause outside func block", path, i+1)
 			}
 			c := mkClause(word, rest, path, i+1, counts)
-			if word == "requires" {
+			switch word {
+			case "requires":
 				cur.Requires = append(cur.Requires, c)
-			} else {
+			case "ensures":
 				cur.Ensures = append(cur.Ensures, c)
+			default:
+				// repinv: representation invariant / abstraction of the implementing object, assumed (and
+				// listed as an assumption) only when the method is checked against an interface contract
+				cur.RepInvs = append(cur.RepInvs, c)
 			}
 		case "modifies":
 			if cur == nil {
